@@ -503,227 +503,6 @@ Proof.
   - cbn [app rsplit1]. rewrite IH. reflexivity.
 Qed.
 
-(* the codecs on Latin-1 text without a backslash *)
-Lemma rue_latin1 : forall s, latin1 s = true -> rue_encode s = s.
-Proof.
-  induction s as [|c s IH]; simpl; intro H; auto.
-  apply andb_true_iff in H as [H1 H2]. unfold rue_char. rewrite H1. simpl. f_equal. auto.
-Qed.
-
-Lemma ue_no_bs : forall s, ~ In bs s -> ue_decode s = Some s.
-Proof.
-  induction s as [|c s IH]; intro H; auto.
-  cbn [ue_decode]. destruct (N.eqb c bs) eqn:E.
-  - apply N.eqb_eq in E. subst. exfalso. apply H. simpl. auto.
-  - cbn [negb]. rewrite IH by (intro; apply H; simpl; auto). reflexivity.
-Qed.
-
-Lemma codec_plain : forall s, latin1 s = true -> ~ In bs s -> codec s = Some s.
-Proof. intros s H1 H2. unfold codec. rewrite (rue_latin1 s H1). apply ue_no_bs. exact H2. Qed.
-
-Lemma invalid_has : forall c d, In c invalid_uri_chars -> valid_uri d = true -> ~ In c d.
-Proof.
-  intros c d Hc Hv. unfold valid_uri in Hv. rewrite forallb_forall in Hv.
-  specialize (Hv c Hc). apply negb_true_iff in Hv. apply mem_false in Hv. exact Hv.
-Qed.
-
-Lemma inv_bs : In bs invalid_uri_chars. Proof. vm_compute. tauto. Qed.
-Lemma inv_quote : In 34 invalid_uri_chars. Proof. vm_compute. tauto. Qed.
-Lemma inv_caret : In 94 invalid_uri_chars. Proof. vm_compute. tauto. Qed.
-
-Lemma tag_no : forall c l, tag_chars l = true -> (is_alnum c || N.eqb c 45) = false -> ~ In c l.
-Proof.
-  intros c l H Hc Hin. unfold tag_chars in H. rewrite forallb_forall in H. rewrite (H c Hin) in Hc. discriminate.
-Qed.
-
-Lemma plain_chars : forall lex c, forallb plain_char lex = true -> In c lex ->
-  c <> 10 /\ c <> 13 /\ c <> 34 /\ c <> 92 /\ c <? 256 = true.
-Proof.
-  intros lex c H Hin. rewrite forallb_forall in H. specialize (H c Hin). unfold plain_char in H.
-  repeat (apply andb_true_iff in H as [H ?]).
-  repeat match goal with X : negb _ = true |- _ => apply negb_true_iff in X; apply N.eqb_neq in X end.
-  auto.
-Qed.
-
-Lemma plain_latin1 : forall lex, forallb plain_char lex = true -> latin1 lex = true.
-Proof.
-  intros lex H. apply forallb_forall. intros c Hin. apply (plain_chars lex c H Hin).
-Qed.
-
-Lemma plain_not_in : forall lex c, forallb plain_char lex = true -> (c = 10 \/ c = 13 \/ c = 34 \/ c = 92) -> ~ In c lex.
-Proof.
-  intros lex c H Hc Hin. destruct (plain_chars lex c H Hin) as [A [B [C [D _]]]]. intuition congruence.
-Qed.
-
-Lemma quote_encode_plain : forall lex, forallb plain_char lex = true -> quote_encode lex = 34 :: lex ++ [34].
-Proof.
-  intros lex H. unfold quote_encode.
-  assert (mem 10 lex = false) as M by (apply mem_false; apply (plain_not_in lex 10 H); auto).
-  rewrite M. unfold bs.
-  rewrite (replace_absent 10 [] _ lex) by (apply (plain_not_in lex 10 H); auto).
-  rewrite (replace_absent 92 [] _ lex) by (apply (plain_not_in lex 92 H); auto).
-  rewrite (replace_absent 34 [] _ lex) by (apply (plain_not_in lex 34 H); auto).
-  rewrite (replace_absent 13 [] _ lex) by (apply (plain_not_in lex 13 H); auto).
-  reflexivity.
-Qed.
-
-Lemma removelast_snoc : forall (s : str) c, removelast (s ++ [c]) = s.
-Proof. intros. rewrite removelast_app by discriminate. simpl. apply app_nil_r. Qed.
-
-(* pickling (after the fix for F7a: __reduce__ passes normalize=False): every well-formed term comes back as itself *)
-Lemma pickle_same : forall o t, wf_term t = true -> same_as t (unpickle o t) = true.
-Proof.
-  intros o t W. destruct t as [s|s|s|lex dt lang]; simpl in *.
-  - apply str_eqb_refl.
-  - apply str_eqb_refl.
-  - apply andb_true_iff in W as [_ W]. destruct s as [|c r]; [discriminate|]. simpl.
-    apply negb_true_iff in W. rewrite W. simpl. rewrite N.eqb_refl. apply str_eqb_refl.
-  - apply andb_true_iff in W as [_ W]. unfold mk_literal.
-    destruct dt as [d|], lang as [l|]; try discriminate.
-    + simpl. rewrite !str_eqb_refl. reflexivity.
-    + apply andb_true_iff in W as [W1 W2]. destruct l as [|c l]; [discriminate|].
-      rewrite W1. simpl. rewrite !str_eqb_refl, N.eqb_refl. reflexivity.
-    + simpl. rewrite str_eqb_refl. reflexivity.
-Qed.
-
-Lemma tkf_fixed : forall c, tkf c = 0 ->
-  match t_term c with
-  | Lit lex dt _ => is_fixed (t_orc c) lex dt lex = true /\ is_fixed (t_orc c) lex dt (n3_lex lex dt) = true
-  | _ => True
-  end.
-Proof.
-  intros c H. unfold tkf in H. destruct (t_term c) as [s|s|s|lex dt lang]; auto; try discriminate.
-  destruct (is_fixed (t_orc c) lex dt lex && is_fixed (t_orc c) lex dt (n3_lex lex dt)) eqn:E; simpl in H; try discriminate.
-  apply andb_true_iff in E as [E1 E2].
-  auto.
-Qed.
-
-Lemma from_n3_iri : forall o s, valid_uri s = true -> latin1 s = true ->
-  from_n3 o (60 :: s ++ [62]) = WTerm (IRI s).
-Proof.
-  intros o s V L. cbn [from_n3]. rewrite removelast_snoc.
-  rewrite codec_plain; auto. apply (invalid_has bs s inv_bs V).
-Qed.
-
-Lemma prefix_q3_false : forall lex suffix, ~ In 34 lex -> ~ In 34 suffix ->
-  prefixb q3 (34 :: lex ++ 34 :: suffix) = false.
-Proof.
-  intros lex suffix H S. unfold q3. destruct lex as [|c lex]; cbn [app prefixb].
-  - rewrite !N.eqb_refl. cbn [andb]. destruct suffix as [|x suffix]; auto.
-    destruct (N.eqb 34 x) eqn:E; auto. apply N.eqb_eq in E. subst. exfalso. apply S. simpl. auto.
-  - rewrite N.eqb_refl. cbn [andb].
-    destruct (N.eqb 34 c) eqn:E; auto. apply N.eqb_eq in E. subst. exfalso. apply H. simpl. auto.
-Qed.
-
-(* from_n3 on the text of a literal whose lexical form needs no escape *)
-Lemma fix_bs_x_absent : forall s, ~ In bs s -> fix_bs_x false s = s.
-Proof.
-  induction s as [|c r IH]; intro H; auto. cbn [fix_bs_x].
-  destruct (N.eqb c bs) eqn:E.
-  - apply N.eqb_eq in E. subst. exfalso. apply H. simpl. auto.
-  - rewrite andb_false_r. f_equal. apply IH. intro. apply H. simpl. auto.
-Qed.
-
-Lemma unesc_quote_absent : forall s, ~ In bs s -> unesc_quote 0 s = s.
-Proof.
-  induction s as [|c r IH]; intro H; auto. cbn [unesc_quote].
-  destruct (N.eqb c bs) eqn:E.
-  - apply N.eqb_eq in E. subst. exfalso. apply H. simpl. auto.
-  - cbn [Nat.odd]. rewrite andb_false_r. cbn [repeat app]. f_equal. apply IH. intro. apply H. simpl. auto.
-Qed.
-
-Lemma from_n3_plain_head : forall o lex suffix,
-  forallb plain_char lex = true -> ~ In 34 suffix ->
-  from_n3 o (34 :: lex ++ 34 :: suffix) =
-    match after_last [94; 94] suffix with
-    | Some d =>
-        match dt_from_n3 d with
-        | None => WAny
-        | Some None => WRaise
-        | Some (Some u) => mk_literal o true lex None (Some u)
-        end
-    | None => mk_literal o true lex (match suffix with 64 :: l => Some l | _ => None end) None
-    end.
-Proof.
-  intros o lex suffix P S.
-  assert (~ In 34 lex) as Q by (apply (plain_not_in lex 34 P); auto).
-  assert (~ In 92 lex) as B by (apply (plain_not_in lex 92 P); auto).
-  cbn [from_n3]. rewrite prefix_q3_false; auto.
-  change (34 :: lex ++ 34 :: suffix) with ((34 :: lex) ++ 34 :: suffix).
-  unfold q1. rewrite (rsplit1_last1 34 (34 :: lex) suffix S).
-  cbn [length skipn]. unfold bs.
-  rewrite (unesc_quote_absent lex B), (fix_bs_x_absent lex B).
-  rewrite (codec_plain lex (plain_latin1 lex P) B).
-  destruct (after_last [94; 94] suffix) as [d|]; auto.
-Qed.
-
-Theorem tspec_ok_model_partial : forall c,
-  wf_term (t_term c) = true -> tkf c = 0 -> text_proved (t_term c) = true ->
-  tspec_ok c (tmodel_obs c) = true.
-Proof.
-  intros c W K P. pose proof (tkf_fixed c K) as F.
-  unfold tspec_ok, tmodel_obs. cbn [t_n3 t_from t_pickle t_flags]. rewrite K. cbn [N.eqb forallb andb].
-  rewrite andb_true_r. apply andb_true_iff. split.
-  - apply pickle_same; auto.
-  - destruct (t_term c) as [s|s|s|lex dt lang].
-    + cbn [n3]. destruct (valid_uri s) eqn:V; [|reflexivity].
-      cbn [app]. cbn [text_proved] in P. rewrite (from_n3_iri _ s V P). simpl. apply str_eqb_refl.
-    + simpl. apply str_eqb_refl.
-    + cbn [wf_term] in W. apply andb_true_iff in W as [_ W]. destruct s as [|x r]; [discriminate|].
-      apply negb_true_iff in W. cbn [n3 from_n3 mk_var]. rewrite N.eqb_refl. cbn [mk_var]. rewrite W.
-      simpl. rewrite N.eqb_refl. apply str_eqb_refl.
-    + destruct F as [F1 F2]. cbn [text_proved] in P. apply andb_true_iff in P as [P D].
-      cbn [wf_term] in W. apply andb_true_iff in W as [_ W].
-      assert (n3_quoted lex dt = 34 :: lex ++ [34]) as NQ.
-      { unfold n3_quoted. rewrite (quote_encode_plain lex P). destruct dt as [d|]; auto.
-        apply andb_true_iff in D as [D _]. apply negb_true_iff in D. rewrite D. reflexivity. }
-      assert (n3_lex lex dt = lex) as NL.
-      { unfold n3_lex. destruct dt as [d|]; auto.
-        apply andb_true_iff in D as [D _]. apply negb_true_iff in D. rewrite D. reflexivity. }
-      cbn [n3]. rewrite NQ. unfold is_fixed in F1.
-      destruct dt as [d|], lang as [l|]; try discriminate.
-      * (* datatype *)
-        apply andb_true_iff in W as [W Wc]. apply andb_true_iff in W as [V NE].
-        apply andb_true_iff in D as [_ DL].
-        assert (truthy (Some d) = true) as T.
-        { destruct d; [simpl in NE; discriminate|reflexivity]. }
-        rewrite T. change (truthy None) with false. cbv iota. cbn [dt_or_string].
-        replace ((34 :: lex ++ [34]) ++ [94; 94; 60] ++ d ++ [62]) with (34 :: lex ++ 34 :: (94 :: 94 :: 60 :: d ++ [62]))
-          by (simpl; rewrite <- app_assoc; reflexivity).
-        rewrite from_n3_plain_head; auto.
-        2:{ simpl. intros [X|[X|[X|X]]]; try discriminate. apply in_app_or in X as [X|X].
-            - apply (invalid_has 34 d inv_quote V X).
-            - simpl in X. destruct X as [X|[]]. discriminate. }
-        assert (after_last [94; 94] (94 :: 94 :: 60 :: d ++ [62]) = Some (60 :: d ++ [62])) as AL.
-        { unfold after_last. cbn [rsplit1].
-          rewrite (rsplit1_absent 94 [94] (d ++ [62])).
-          2:{ intro X. apply in_app_or in X as [X|X]. apply (invalid_has 94 d inv_caret V X).
-              simpl in X. destruct X as [X|[]]. discriminate. }
-          simpl. reflexivity. }
-        rewrite AL. cbn [dt_from_n3]. rewrite removelast_snoc.
-        rewrite (codec_plain d DL (invalid_has bs d inv_bs V)).
-        unfold mk_literal. destruct (ctor_lex (t_orc c) lex (Some d)) as [l'|]; [|discriminate].
-        simpl. rewrite str_eqb_sym, F1. simpl. rewrite str_eqb_refl. reflexivity.
-      * (* language tag *)
-        apply andb_true_iff in W as [VL TC].
-        assert (truthy (Some l) = true) as T.
-        { destruct l; [discriminate|reflexivity]. }
-        rewrite T. cbv iota. cbn [lang_or_empty].
-        replace ((34 :: lex ++ [34]) ++ 64 :: l) with (34 :: lex ++ 34 :: (64 :: l))
-          by (simpl; rewrite <- app_assoc; reflexivity).
-        rewrite from_n3_plain_head; auto.
-        2:{ simpl. intros [X|X]; [discriminate|]. revert X. apply tag_no; auto. }
-        assert (after_last [94; 94] (64 :: l) = None) as AL.
-        { unfold after_last. rewrite (rsplit1_absent 94 [94] (64 :: l)); auto.
-          simpl. intros [X|X]; [discriminate|]. revert X. apply tag_no; auto. }
-        rewrite AL. unfold mk_literal. destruct l as [|x l]; [discriminate|].
-        rewrite VL. simpl. rewrite !str_eqb_refl, N.eqb_refl. reflexivity.
-      * (* plain *)
-        cbn [truthy]. replace (34 :: lex ++ [34]) with (34 :: lex ++ 34 :: []) by reflexivity.
-        rewrite from_n3_plain_head; auto.
-        simpl. rewrite str_eqb_refl. reflexivity.
-Qed.
-
 (* ------------------------------------------------------------------ *)
 (* order: kinds, strings, and "the comparison is defined" on the modelled literals *)
 
@@ -760,12 +539,6 @@ Qed.
 
 (* ------------------------------------------------------------------ *)
 (* the known findings, on the model *)
-
-(* the text read-back of a literal the constructor does not leave alone (F7a): from_n3 normalises *)
-Lemma from_n3_nonnormal_refuted : exists t, wf_term t = true /\ tkf {| t_term := t; t_orc := [] |} = 1 /\
-  same_as t (match n3 t with Some s => from_n3 [] s | None => WRaise end) = false
-  /\ same_as t (unpickle [] t) = true.
-Proof. exists (Lit [48; 49] (Some xsd_integer) None). vm_compute. auto. Qed.
 
 Definition from_n3_n3 (o : ctor_oracle) (t : term) : wres :=
   match n3 t with Some s => from_n3 o s | None => WRaise end.
@@ -813,24 +586,6 @@ Proof.
     destruct (nth i (o_hash o) None), (nth j (o_hash o) None); auto. apply Z.eqb_eq. exact Y.
   - pose proof (forallb_idx ts _ H1 i Hi) as X. cbv beta in X.
     exact (forallb_idx ts _ X j Hj).
-Qed.
-
-Lemma tspec_ok_reads : forall c o, tspec_ok c o = true ->
-  (* the pickled copy is the same term *)
-  same_as (t_term c) (t_pickle o) = true
-  (* if n3() produced text, from_n3 reads the same term back; only an IRI n3 cannot write may raise *)
-  /\ (forall s, t_n3 o = Some s -> same_as (t_term c) (t_from o) = true)
-  /\ (t_n3 o = None -> exists s, t_term c = IRI s /\ valid_uri s = false)
-  (* none of the conformance runs failed *)
-  /\ ~ In (Some false) (t_flags o).
-Proof.
-  intros c o H. unfold tspec_ok in H.
-  apply andb_true_iff in H as [H H3]. apply andb_true_iff in H as [H1 H2].
-  repeat split; auto.
-  - intros s E. rewrite E in H2. exact H2.
-  - intro E. rewrite E in H2. destruct (t_term c); try discriminate. exists s. split; auto.
-    apply negb_true_iff in H2. exact H2.
-  - intro Hin. rewrite forallb_forall in H3. specialize (H3 _ Hin). discriminate.
 Qed.
 
 (* the family clauses of the checker, read as propositions *)
